@@ -13,6 +13,7 @@ PHASES = ["after_open", "after_symbol_db", "after_resolution", "after_alternativ
           "after_section_resolution", "after_set_size", "after_layout", "write_start",
           "write_body_done", "write_flushed", "write_unmapped", "after_write", "before_verify"]
 ACTIONS = ["rewrite", "append", "replace", "touch", "replace_old", "touch_old"]
+OPENED_AS = {}  # file that is mutated -> name under which wild opens it (symbolic links)
 
 
 def fnv32(s):
@@ -42,7 +43,8 @@ def build(rng, d):
         return "\n".join(lines)
 
     obj("main", '\t.section .text._start,"ax",@progbits\n\t.globl _start\n_start:\n'
-        "\tcall pa\n\tcall ar1\n\tcall th1\n\tcall sc1\n\tmovl $231, %eax\n\txorl %edi, %edi\n"
+        "\tcall pa\n\tcall ar1\n\tcall th1\n\tcall sc1\n\tcall lsearch1\n\tcall startlib1\n"
+        "\tcall viasym1\n\tcall shfn1@PLT\n\tcall nested1\n\tmovl $231, %eax\n\txorl %edi, %edi\n"
         "\tsyscall")
     files["main.o"] = "object"
     obj("plain", fn("pa"))
@@ -70,10 +72,40 @@ def build(rng, d):
         f.write("INPUT(sm1.o)\n")
     files["extra.ld"] = "linker-script"
     files["sm1.o"] = "script-input"
+    # An archive found through the library search path, an object inside --start-lib/--end-lib, an
+    # object reached through a symbolic link (the link target is what changes), a shared library,
+    # and a linker script that pulls in another linker script.
+    obj("se1", fn("lsearch1"))
+    rc, o, e = run_cmd(["ar", "rcs", "libsearch.a", "se1.o"], cwd=d)
+    if rc != 0:
+        raise HarnessError(f"ar: {e}")
+    os.unlink(os.path.join(d, "se1.o"))
+    files["libsearch.a"] = "searched-archive"
+    obj("sl1", fn("startlib1"))
+    files["sl1.o"] = "start-lib-object"
+    obj("real_sym", fn("viasym1"))
+    os.symlink("real_sym.o", os.path.join(d, "link_sym.o"))
+    files["real_sym.o"] = "symlinked-object"
+    OPENED_AS["real_sym.o"] = "link_sym.o"
+    obj("shsrc", fn("shfn1"))
+    rc, o, e = run_cmd(["ld", "-shared", "-o", "libsh.so", "shsrc.o"], cwd=d)
+    if rc != 0:
+        raise HarnessError(f"ld -shared: {e}")
+    os.unlink(os.path.join(d, "shsrc.o"))
+    files["libsh.so"] = "shared-library"
+    obj("nm1", fn("nested1"))
+    with open(os.path.join(d, "outer.ld"), "w") as f:
+        f.write("INPUT(inner.ld)\n")
+    with open(os.path.join(d, "inner.ld"), "w") as f:
+        f.write("GROUP(nm1.o)\n")
+    files["outer.ld"] = "linker-script"
+    files["inner.ld"] = "nested-linker-script"
+    files["nm1.o"] = "script-input"
     past = time.time() - 5000
     for i, name in enumerate(sorted(files)):
         os.utime(os.path.join(d, name), (past + i, past + i))
-    argv = ["main.o", "plain.o", "libar.a", "libthin.a", "extra.ld"]
+    argv = ["main.o", "plain.o", "libar.a", "libthin.a", "extra.ld", "-L.", "-lsearch", "--start-lib",
+            "sl1.o", "--end-lib", "link_sym.o", "libsh.so", "outer.ld"]
     return argv, files
 
 
@@ -126,11 +158,11 @@ def run_job(job):
         for sc in scenarios:
             n += 1
             d = os.path.join(root, f"d{n}")
-            shutil.copytree(template, d)
+            shutil.copytree(template, d, symlinks=True)
             # copytree preserves mtimes (copy2)
             cmd = action_cmd(sc["action"], sc["file"])
             plan = Plan(sc["pseed"], sc["strategy"], faults=[f"cmd@{sc['trigger']}@{cmd}"])
-            argv = ["-o", "out", "-static"] + inputs + [f"--threads={sc['threads']}"]
+            argv = ["-o", "out"] + inputs + [f"--threads={sc['threads']}"]
             if not sc["fork"]:
                 argv.append("--no-fork")
             r = sim_link(argv, d, plan, tag=f"r{n}", ctl_dir=ctl)
@@ -151,7 +183,8 @@ def run_job(job):
                 shutil.rmtree(d, ignore_errors=True)
                 continue
             events = r.events()
-            want = {fnv32(os.path.join(d, sc["file"])), fnv32(sc["file"]), fnv32("./" + sc["file"]),
+            oname = OPENED_AS.get(sc["file"], sc["file"])
+            want = {fnv32(os.path.join(d, oname)), fnv32(oname), fnv32("./" + oname),
                     fnv32(os.path.realpath(os.path.join(d, sc["file"])))}
             t_open = None
             t_verify = None
